@@ -264,9 +264,13 @@ def normalise_err(err):
     s = err.decode("latin-1")
     usage = False
     m = BANNER_RE.search(s)
-    if m and s.startswith("\n"):
-        usage = True
-        s = s[1:m.start()] + "\n"
+    if m:
+        # usageExit of the qpdf executable: "\n<whoami>: <message>\n\nFor help: ..." (possibly after warnings already printed)
+        head = s[:m.start()]
+        i = 0 if head.startswith("\nqpdf: ") else head.rfind("\n\nqpdf: ")
+        if i >= 0:
+            usage = True
+            s = (head[1:] if i == 0 else head[:i + 1] + head[i + 2:]) + "\n"
     s = re.sub(r"^qpdfjob json: ", "qpdf: ", s, flags=re.M)
     s = re.sub(r"error with job-json file \S+: ", "", s)
     s = re.sub(r"\nRun qpdf --job-json-help for information on the file format\.", "", s)
@@ -1206,6 +1210,10 @@ def part_front(chk, T, runner, jobs):
 
 def run(chk):
     drv = os.path.join(common.DRV, "drv")
+    if os.path.exists(TJ.FAILED_MARK):
+        raise common.InfraError("translator translate_job_tables.py did not understand the source (generated option tables / job.yml / QPDFJob_config.cc)",
+                                open(TJ.FAILED_MARK).read())
+    common.build_drv()      # the translator may have refreshed harness/gen_job_dispatch.inc
     T = Tables()
     wd = common.workdir("C19")
     pool = make_pool(wd)
